@@ -118,7 +118,8 @@ func sandboxStream(sum *Summary, model *vd.Model, n int, seed int64) {
 	self, _ := os.Executable()
 	rng := rand.New(rand.NewSource(seed))
 	kinds := []string{"valid", "valid", "valid", "valid", "valid", "valid", "valid", "valid", "valid", "valid", "missing", "directory", "malformed", "wrong-type", "unknown-action", "unknown-syscall", "unknown-operation",
-		"empty-syscalls", "oversize", "no-command", "no-seccomp-key", "bad-argument-index", "no-arguments-key", "empty-arguments"}
+		"empty-syscalls", "oversize", "no-command", "no-seccomp-key", "bad-argument-index", "no-arguments-key", "empty-arguments", "tsync-refused"}
+	strace, _ := exec.LookPath("strace")
 	for i := 0; i < n; i++ {
 		kind := kinds[rng.Intn(len(kinds))]
 		c := genDecide(rng)
@@ -196,6 +197,16 @@ func sandboxStream(sum *Summary, model *vd.Model, n int, seed int64) {
 			args = append(args, self, "-target", marker, "-events", string(evj))
 		}
 		cmd := exec.Command(bin, args...)
+		if kind == "tsync-refused" {
+			// the one refusal that carries no errno: the kernel answers a thread-sync load with the id of a thread it
+			// cannot synchronise and installs nothing.  In a fresh process no thread diverges, so the answer is
+			// injected (strace makes seccomp(2) return 77 without executing it); the file itself is valid.
+			if strace == "" {
+				sum.Distribution["file:tsync-refused(strace not available)"]++
+				continue
+			}
+			cmd = exec.Command(strace, append([]string{"-f", "-qq", "-o", "/dev/null", "-e", "trace=seccomp", "-e", "inject=seccomp:retval=77", bin}, args...)...)
+		}
 		var out, errb bytes.Buffer
 		cmd.Stdout, cmd.Stderr = &out, &errb
 		done := make(chan error, 1)
